@@ -167,3 +167,56 @@ pub fn run(seed: u64, tier: &str, out: &mut Out) {
         out.emit(&case, &obs);
     }
 }
+
+/// C05V — a target that changes in the middle of a run: bars are created on a hidden target (a hidden MultiProgress, or a
+/// hidden bar that is added to a visible MultiProgress / given a terminal later) and updated there; then the target becomes a
+/// rate-limited terminal. From then on the staleness clause must hold as for any other bar: the first ordinary request is
+/// painted (the bucket is full), and every ordinary request made at least 1/R s after the last painted frame is painted.
+pub fn run_retarget(seed: u64, tier: &str, out: &mut Out) {
+    use indicatif::MultiProgress;
+    let mut rng = Rng::new(seed ^ 0x05e);
+    let n = if tier == "thorough" { 40_000 } else { 1_200 };
+    for case in 0..n {
+        vh::set_auto_advance_ns(0); vh::set_now_ns(T0);
+        let rate = *rng.pick(&[1u8, 4, 10, 20, 50]);
+        let i_ns = 1_000_000_000u64 / rate as u64 + 1;
+        let rec = Recorder::new(10, 60, false);
+        let visible = || ProgressDrawTarget::term_like_with_hz(Box::new(rec.clone()), rate);
+        let mode = case % 3;
+        // 0: hidden MultiProgress, members added, then MultiProgress::set_draw_target; 1: hidden stand-alone bar, then
+        // ProgressBar::set_draw_target; 2: hidden stand-alone bar added to a visible MultiProgress
+        let mp = match mode { 0 => Some(MultiProgress::with_draw_target(ProgressDrawTarget::hidden())), 2 => Some(MultiProgress::with_draw_target(visible())), _ => None };
+        let mk = || { let pb = ProgressBar::with_draw_target(Some(1000), ProgressDrawTarget::hidden()); pb.set_style(ProgressStyle::with_template("{msg} {pos}").unwrap()); pb };
+        let mut bars: Vec<ProgressBar> = (0..rng.range(1, 3)).map(|_| mk()).collect();
+        if mode == 0 { bars = bars.into_iter().map(|b| mp.as_ref().unwrap().add(b)).collect(); }
+        let mut t = T0; let mut hist: Vec<String> = Vec::new();
+        // some life on the hidden target
+        for _ in 0..rng.below(6) { t += rng.below(3 * i_ns); vh::set_now_ns(t); let b = rng.pick(&bars); match rng.below(3) { 0 => b.inc(1), 1 => b.set_message("h"), _ => b.tick() } }
+        hist.push(format!("mode{mode} rate{rate}"));
+        match mode {
+            0 => mp.as_ref().unwrap().set_draw_target(visible()),
+            1 => for b in &bars { b.set_draw_target(visible()); },
+            _ => { bars = bars.into_iter().map(|b| mp.as_ref().unwrap().add(b)).collect(); }
+        }
+        let mut verdict = String::from("ok");
+        let mut last_painted: Option<u64> = None;
+        let (mut requests, mut painted_n) = (0usize, 0usize);
+        for k in 0..rng.range(3, 14) {
+            let gap = match rng.below(4) { 0 => rng.below(i_ns), 1 => i_ns, 2 => i_ns + rng.below(5 * i_ns), _ => 3_000_000 + rng.below(2 * i_ns) };
+            t += gap; vh::set_now_ns(t);
+            // stand-alone bars have one limiter each: judge one bar only; members of a MultiProgress share the multi's limiter
+            let b = if mode == 1 { &bars[0] } else { rng.pick(&bars) };
+            let before = rec.flush_attempts();
+            // requests that reach the limiter whatever the position gate says
+            match rng.below(3) { 0 => { b.set_message(format!("m{k}")); hist.push(format!("+{gap} msg")); } 1 => { b.tick(); hist.push(format!("+{gap} tick")); } _ => { b.set_length(1000 + k); hist.push(format!("+{gap} len")); } }
+            let painted = rec.flush_attempts() > before;
+            requests += 1; if painted { painted_n += 1; }
+            let due = match last_painted { None => true, Some(lp) => (t - lp) as u128 * rate as u128 >= 1_000_000_000 };
+            if due && !painted && verdict == "ok" { verdict = format!("FAIL staleness after the target became visible: request {k} at +{} ns after the last painted frame (rate {rate}/s) was not painted; history {}", last_painted.map_or(0, |lp| t - lp), hist.join(", ")); }
+            if painted { last_painted = Some(t); }
+        }
+        for b in bars { std::mem::forget(b); }
+        std::mem::forget(mp);
+        out.emit(&format!("NOMODEL RETARGET {}", hist.join(",").replace(' ', "_")), &format!("requests={requests} painted={painted_n} ORACLE {verdict}"));
+    }
+}
